@@ -727,7 +727,9 @@ def _with_scale(rng, cases, frac):
     for c in cases:
         if rng.random() < frac and not c.get('bad_shape'):
             well = c['tag'].get('zero') in ('none', 'ends') and c['kw'].get('maxsep') is None and c['kw'].get('binsz') is None
-            c['tag']['scale'] = rng.choice([2.0, 0.5, 4.0, 0.25, 16.0, 0.0625] + ([3.0, 0.1, 10.0, 0.37] if well else []))
+            # 2**-30 and 2**-56: spectra in physical units (1e-9 .. 1e-17 per pixel); only small factors, because inverse variances
+            # below 2**-23 count as 'no data' in the code
+            c['tag']['scale'] = rng.choice([2.0, 0.5, 4.0, 0.25, 16.0, 0.0625, 2.0 ** -30, 2.0 ** -56, 2.0 ** -56] + ([3.0, 0.1, 10.0, 0.37] if well else []))
     return cases
 
 
